@@ -56,6 +56,66 @@ def _l6_chunked(n: int, z0: int, z1: int, z2: int, z3: int, bp: int) -> bool:
     return S.check_bp_chunked(bp_chunked, [z0, z1, z2, z3][:n], bp) is None
 
 
+def l5_local_bin_size_e2(tier='quick', case=None, seed=0):
+    """E2 (own AST -> z3 translation, unbounded integers): the bin-size arithmetic of blacklisted_binning.
+    For every blacklist-free stretch of length >= 1 and every requested bin size >= 1 the optimised local bin size read from
+    the source (`local_bin_size = int((start - current) / total_bins)`, with the `total_bins == 0 -> 1` adjustment) lies in
+    [1, bin_size]: bins are never empty and never larger than requested, for stretches of ANY length."""
+    import ast, inspect, time, z3
+    from vlib import py2smt as T
+    src = inspect.getsource(getattr(B.blacklisted_binning, "__floatcut_orig__", B.blacklisted_binning))     # NB: original source text (the float cut only affects the compiled object)
+    fn = ast.parse(__import__('textwrap').dedent(src)).body[0]
+    assign = [n for n in ast.walk(fn) if isinstance(n, ast.Assign) and ast.unparse(n.targets[0]) == 'local_bin_size']
+    count = [n for n in ast.walk(fn) if isinstance(n, ast.Assign) and ast.unparse(n.targets[0]) == 'total_bins' and 'fill_range' in ast.unparse(n.value)]
+    zero_fix = [n for n in ast.walk(fn) if isinstance(n, ast.If) and ast.unparse(n.test) == 'total_bins == 0']
+    if len(assign) != 1 or len(count) != 1 or len(zero_fix) != 1:
+        return dict(verdict='error', detail='anchor statements not found in blacklisted_binning (local_bin_size=%d total_bins=%d zero_fix=%d)' % (len(assign), len(count), len(zero_fix)))
+    if ast.unparse(count[0].value) != 'len(list(fill_range(current, start, bin_size)))':
+        return dict(verdict='error', detail='total_bins is no longer the number of fill_range(current, start, bin_size) steps: %s' % ast.unparse(count[0].value))
+    start, current, b, nsteps = z3.Ints('start current bin_size nsteps')
+    tr = T.Translator()
+    fixed = tr.ev(zero_fix[0].body[0].value, {})
+    total = T.ite(nsteps == 0, fixed, nsteps)
+    local = tr.ev(assign[0].value, dict(start=start, current=current, total_bins=total))
+    py_expr = compile(ast.Expression(assign[0].value), '<blacklisted_binning:local_bin_size>', 'eval')
+    stretch = start - current
+    # contract of fill_range (validated below against the real generator, and proved for spans <= 8 by L1): ceil(span / step) steps
+    steps_axiom = z3.And(nsteps * b >= stretch, (nsteps - 1) * b < stretch)
+    pts = bad = 0
+    for sp in list(range(1, 40)) + [999, 1000, 1001, 123457]:
+        for bv in (1, 2, 3, 4, 7, 10, 1000, 50000):
+            n_real = len(list(B.fill_range(5, 5 + sp, bv)))
+            pts += 1
+            if not (n_real * bv >= sp and (n_real - 1) * bv < sp):
+                bad += 1
+            enc = z3.simplify(z3.substitute(local, (start, z3.IntVal(5 + sp)), (current, z3.IntVal(5)), (nsteps, z3.IntVal(n_real))))
+            py = eval(py_expr, dict(vars(B)), dict(start=5 + sp, current=5, total_bins=(n_real if n_real else fixed)))   # the source expression run by CPython
+            if enc.as_long() != py:
+                bad += 1
+    if bad:
+        return dict(verdict='error', detail='fill_range step-count contract / translator validation failed on %d of %d points' % (bad, pts))
+    pre = [stretch >= 1, b >= 1, steps_axiom]
+    r0, m0, _ = T.solve(pre, seed=seed)
+    if r0 != 'sat':
+        return dict(verdict='vacuous', detail='reach: ' + r0)
+    res, n, tot = [], 0, 0.0
+    for name, g in (('local_bin_size >= 1', local < 1), ('largest emitted bin min(local_bin_size, stretch) <= bin_size', T.ite(local < stretch, local, stretch) > b)):
+        r, model, dt = T.solve(pre + [g], timeout_ms=60000, seed=seed)
+        n += 1; tot += dt
+        res.append((name, r, model))
+    out = dict(solver_calls=n, solver_s=round(tot, 3), paths=0, nontrivial=n + pts, detail='; '.join('%s: %s' % (a, r) for a, r, _ in res),
+               samples=[dict(lemma='L5_local_bin_size', kind='reachability witness', input=m0),
+                        dict(lemma='L5_local_bin_size', kind='validation points (real fill_range step count, encoded expression vs python)', count=pts)])
+    sat = [x for x in res if x[1] == 'sat']
+    if sat:
+        out.update(verdict='refuted', cex=dict(sat[0][2], goal=sat[0][0]))
+    elif all(x[1] == 'unsat' for x in res):
+        out['verdict'] = 'unsat'
+    else:
+        out['verdict'] = 'unknown'
+    return out
+
+
 _T = {'quick': 200, 'thorough': 1200}
 _split = lambda Ls, nbs: [dict(id='L%d_nb%d' % (L, nb), pre=['L == %d' % L, 'nb == %d' % nb]) for L in Ls for nb in nbs]
 LEMMAS = [
@@ -66,6 +126,7 @@ LEMMAS = [
     dict(name='L4_fetch_windows', fn='_l4_windows', engine='E1', timeout=_T, replay='replay.C17:replay',
          cases={'quick': _split((1, 2, 3, 4, 5), (0, 1)) + _split((6, 7, 8, 9, 10, 11, 12), (0,)) + _split((3, 4), (2,)),
                 'thorough': _split((1, 2, 3, 4, 5, 6, 7, 8), (0, 1, 2))}),
+    dict(name='L5_local_bin_size_unbounded', run='l5_local_bin_size_e2', engine='E2', timeout=_T, replay='replay.C17:replay'),
     dict(name='L6_bp_chunked', fn='_l6_chunked', engine='E1', timeout=_T, replay='replay.C17:replay'),
 ]
 
@@ -73,7 +134,7 @@ PROPERTY = dict(
     functions=['bamBinCounts.fill_range', 'bamBinCounts.trim_rangelist', 'bamBinCounts.merge_overlapping_ranges/_merge_overlapping_ranges/range_contains_overlap',
                'bamBinCounts.blacklisted_binning', 'utils.binning.bp_chunked'],
     bounds={'quick': dict(region_start='0..2', region_length='1..5 with <=1 blacklist interval, 2..4 with 2, 6..8 (fetch windows: 6..12) without blacklist', bin_size='1..9', blacklist='<=2 intervals with ends in -1..12, any overlap/order',
-                          fragment_size='unbounded >= 0', fill_range='start unbounded, span<=8, step<=9', bp_chunked='<=4 tasks, unbounded sizes'),
+                          fragment_size='unbounded >= 0', fill_range='start unbounded, span<=8, step<=9', local_bin_size='E2: stretch and bin size UNBOUNDED (>= 1)', bp_chunked='<=4 tasks, unbounded sizes'),
             'thorough': dict(region_length='1..8', blacklist='<=2')},
     outside=['BED parsing (get_bins_from_bed_dict)', 'regions longer than 8 / more than 2 blacklist intervals', 'more_itertools.windowed (third party, executed symbolically as is)'],
     assumptions=['float cut in blacklisted_binning: int((start-current)/total_bins) == (start-current)//total_bins for non-negative operands (lemma F); cuts: %r' % (_CUTS,)],
